@@ -127,10 +127,32 @@ UNITARY_TEMPLATES = ["rot", "ph2", "u2", "d4", "k3", "mix"]
 _DEF_CACHE = {}
 
 
+def _exact_templates():
+    I = sympy.I
+    h = sympy.Rational(1, 2)
+    return {
+        "cx": sympy.Matrix([[0, 1], [1, 0]]),                       # unflagged Hermitian, eigenvalue -1
+        "cz": sympy.Matrix([[1, 0], [0, -1]]),
+        "cs": sympy.Matrix([[1, 0], [0, I]]),
+        "csx": sympy.Matrix([[h + h * I, h - h * I], [h - h * I, h + h * I]]),
+        "ciswap": sympy.Matrix([[1, 0, 0, 0], [0, 0, I, 0], [0, I, 0, 0], [0, 0, 0, 1]]),
+        "cy": sympy.Matrix([[0, -I], [I, 0]]),
+    }
+
+
+EXACT_TEMPLATES = _exact_templates()
+
+
 def custom_definition(spec):
     """CustomGateDefinition for a custom / customsym gate spec (cached: same spec -> equal def)."""
     from orquestra.quantum.circuits import CustomGateDefinition
 
+    if spec["g"] == "cexact":
+        key = ("cexact", spec["t"])
+        if key not in _DEF_CACHE:
+            _DEF_CACHE[key] = CustomGateDefinition(
+                gate_name="ce_" + spec["t"], matrix=EXACT_TEMPLATES[spec["t"]], params_ordering=())
+        return _DEF_CACHE[key]
     if spec["g"] == "custom":
         key = ("custom", spec["k"], spec["mseed"])
         if key not in _DEF_CACHE:
@@ -157,7 +179,7 @@ def custom_definition(spec):
 def build_base(spec):
     from orquestra.quantum.circuits import builtin_gate_by_name
 
-    if spec["g"] in ("custom", "customsym"):
+    if spec["g"] in ("custom", "customsym", "cexact"):
         d = custom_definition(spec)
         return d(*[build_expr(p) for p in spec.get("p", [])])
     refg = builtin_gate_by_name(spec["g"])
@@ -188,6 +210,8 @@ def build_gate(spec):
 def base_arity(spec):
     if spec["g"] == "custom":
         return spec["k"]
+    if spec["g"] == "cexact":
+        return int(math.log2(EXACT_TEMPLATES[spec["t"]].shape[0]))
     if spec["g"] == "customsym":
         return SYM_TEMPLATE_ARITY[spec["t"]][0]
     return TABLE[spec["g"]][0]
@@ -201,6 +225,8 @@ def ref_base_matrix(spec):
     """Independent numeric matrix of the base gate of a numeric gate spec."""
     if spec["g"] == "custom":
         return random_unitary(spec["k"], spec["mseed"])
+    if spec["g"] == "cexact":
+        return ref.npm(EXACT_TEMPLATES[spec["t"]])
     if spec["g"] == "customsym":
         mat, formals = SYM_TEMPLATES[spec["t"]]
         vals = dict(zip(formals, [complex(p) if isinstance(p, complex) else p for p in spec["p"]]))
